@@ -347,6 +347,9 @@ struct World {
     allowf: IpFilter,
     keyset: Arc<KeySet>,
     keyfile: Vec<u8>,
+    /// the configured deny / allow lists as text (for the harness's own membership test)
+    dlist_s: Vec<String>,
+    alist_s: Vec<String>,
     info: NtpServerInfo,
     /// the `Arc<RwLock<NtpServerInfo>>` both servers were built with (the daemon's system task writes to it)
     shared: Arc<RwLock<NtpServerInfo>>,
@@ -372,6 +375,8 @@ impl World {
             cfg,
             keyset: Arc::new(KeySet::new()),
             keyfile: vec![],
+            dlist_s: vec![],
+            alist_s: vec!["0.0.0.0/0".to_string(), "::/0".to_string()],
             shared: Arc::new(RwLock::new(NtpServerInfo::default())),
             info: NtpServerInfo::default(),
             server: None,
@@ -672,6 +677,12 @@ fn exec_case(ops: &[String], run: &mut Run) {
         match words.first().copied() {
             Some("cfg") => {
                 let r = &words[1..];
+                let lst = |k: &str| -> Vec<String> {
+                    let v = kv(r, k).unwrap_or("-");
+                    if v == "-" { vec![] } else { v.split(';').map(|x| x.to_string()).collect() }
+                };
+                w.dlist_s = lst("dlist");
+                w.alist_s = lst("alist");
                 w.cfg.denylist = FilterList { filter: parse_subnets(kv(r, "dlist").unwrap_or("-")), action: parse_action(kv(r, "dact").unwrap_or("ignore")) };
                 w.cfg.allowlist = FilterList { filter: parse_subnets(kv(r, "alist").unwrap_or("-")), action: parse_action(kv(r, "aact").unwrap_or("ignore")) };
                 w.cfg.require_nts = match kv(r, "rnts") {
@@ -784,7 +795,7 @@ fn exec_case(ops: &[String], run: &mut Run) {
                 w.clock.now.store(now, std::sync::atomic::Ordering::Relaxed);
                 let out = run_handle(w.server.as_mut().expect("cfg first"), ip, recv, now, &msg, buf, &keyset, &sess);
                 let big = run_handle(w.shadow.as_mut().expect("cfg first"), ip, recv, now, &msg, 4096, &keyset, &sess);
-                oracle(run, &w, rvar, &msg, buf, in_deny, in_allow, rate_ok, &abs, &sess, &out, &big);
+                oracle(run, &w, ip, rvar, &msg, buf, in_deny, in_allow, rate_ok, &abs, &sess, &out, &big);
                 // branch histogram + non-triviality
                 let kind = out.stats.first().map(|e| format!("{}-{}", reason_str(e.2), response_str(e.3))).unwrap_or_else(|| "nostat".into());
                 run.hit(&format!("v{}-{}-{}{}", abs.version, abs.parse, kind, if abs.has_cookie { "-nts" } else { "" }));
@@ -822,7 +833,52 @@ fn ofail(run: &mut Run, clause: &str, attrs: &str, text: &str) {
     }
 }
 
-fn oracle(run: &mut Run, w: &World, rvar: f64, msg: &[u8], buf: usize, in_deny: bool, in_allow: bool, rate_ok: bool, abs: &Abs, sess: &Option<Session>, out: &Outcome, big: &Outcome) {
+/// The harness's OWN list membership (no `IpFilter`, no `IpSubnet`): plain prefix comparison on canonical values.
+/// An IPv4-mapped IPv6 client address counts as its IPv4 address; an IPv4-mapped subnet with a mask of 96 bits or
+/// more counts as the IPv4 subnet; everything else — in particular IPv4-COMPATIBLE `::a.b.c.d` and `::1` — is IPv6.
+fn own_member(list: &[String], ip: IpAddr) -> bool {
+    fn canon(ip: IpAddr) -> (bool, u128) {
+        match ip {
+            IpAddr::V4(a) => (true, u32::from(a) as u128),
+            IpAddr::V6(a) => {
+                let v = u128::from(a);
+                if v >> 32 == 0xffff {
+                    (true, v & 0xffff_ffff)
+                } else {
+                    (false, v)
+                }
+            }
+        }
+    }
+    let (c4, cv) = canon(ip);
+    list.iter().any(|e| {
+        let (addr, mask) = match e.split_once('/') {
+            Some((a, m)) => (a, m.parse::<u32>().unwrap_or(0)),
+            None => (e.as_str(), 128),
+        };
+        let Ok(a) = addr.parse::<IpAddr>() else { return false };
+        let (s4, sv, bits) = match a {
+            IpAddr::V4(_) => {
+                let (_, v) = canon(a);
+                (true, v, mask.min(32))
+            }
+            IpAddr::V6(_) => {
+                let (m4, v) = canon(a);
+                if m4 && mask >= 96 { (true, v, mask - 96) } else { (false, u128::from(match a { IpAddr::V6(x) => x, _ => unreachable!() }), mask.min(128)) }
+            }
+        };
+        if s4 != c4 {
+            return false;
+        }
+        let width = if s4 { 32 } else { 128 };
+        if bits == 0 {
+            return true;
+        }
+        (sv >> (width - bits)) == (cv >> (width - bits))
+    })
+}
+
+fn oracle(run: &mut Run, w: &World, ip: IpAddr, rvar: f64, msg: &[u8], buf: usize, in_deny: bool, in_allow: bool, rate_ok: bool, abs: &Abs, sess: &Option<Session>, out: &Outcome, big: &Outcome) {
     let attrs = |abs: &Abs| format!("v={} parse={} nts={} short_uid={}", abs.version, abs.parse, abs.has_cookie as u8, abs.short_uid as u8);
     let resp_kind = |o: &Outcome| -> &'static str {
         // classify the datagram itself (not the statistics): time / deny / nak / other
@@ -870,7 +926,14 @@ fn oracle(run: &mut Run, w: &World, rvar: f64, msg: &[u8], buf: usize, in_deny: 
         ofail(run, "c22_panic", &format!("v={} cause={} min_nonce={}", abs.version, cause, if abs.min_nonce == usize::MAX { -1 } else { abs.min_nonce as i64 }), &format!("Server::handle panicked: {}", site));
         return;
     }
-    // ---------------- C15
+    // ---------------- C15: the policy clauses are evaluated against the harness's OWN list membership; the real
+    // filter's answer (an input of the model) must agree with it
+    let own_deny = own_member(&w.dlist_s, ip);
+    let own_allow = own_member(&w.alist_s, ip);
+    if own_deny != in_deny || own_allow != in_allow {
+        ofail(run, "c15_membership", &attrs(abs), &format!("address {}: IpFilter says deny={} allow={}, prefix comparison says deny={} allow={}", ip, in_deny, in_allow, own_deny, own_allow));
+    }
+    let (in_deny, in_allow) = (own_deny, own_allow);
     let listed = in_deny || !in_allow;
     if listed {
         let act = if in_deny { w.cfg.denylist.action } else { w.cfg.allowlist.action };
@@ -1192,10 +1255,17 @@ fn req_wire_sums(text: &str) -> (usize, usize, bool, usize) {
 const IPS: &[&str] = &[
     "10.0.0.1", "10.0.0.2", "10.0.1.7", "10.1.0.1", "192.168.1.5", "192.168.1.130", "127.0.0.1", "8.8.8.8", "255.255.255.255",
     "::1", "2001:db8::1", "2001:db8:1::2", "fe80::1", "::ffff:10.0.0.1", "::ffff:192.168.1.5", "::ffff:8.8.8.8", "::",
+    // IPv4-compatible addresses (::/96): IPv6 clients that must be matched against IPv6 entries
+    "::10.0.0.1", "::192.168.1.5", "::8.8.8.8", "::2", "::ffff", "::1:0:0", "::fffe:10.0.0.1",
+    // subnet edges
+    "10.0.0.0", "10.0.0.255", "10.0.1.0", "9.255.255.255", "11.0.0.0", "192.168.1.127", "192.168.1.128", "2001:db8:0:ffff::1",
+    "2001:db9::", "2001:db8:1:ffff:ffff:ffff:ffff:ffff", "2001:db8:2::", "febf:ffff::1", "fec0::1", "::ffff:10.0.0.2", "::ffff:11.0.0.0",
 ];
 const SUBNETS: &[&str] = &[
     "10.0.0.0/8", "10.0.0.0/24", "10.0.0.1/32", "10.0.0.2/31", "192.168.1.0/25", "192.168.1.128/25", "0.0.0.0/0", "8.0.0.0/6",
     "2001:db8::/32", "2001:db8:1::/48", "::/0", "::1/128", "fe80::/10", "::ffff:10.0.0.0/104", "127.0.0.0/8",
+    // IPv6 entries covering the IPv4-compatible range and parts of it
+    "::/96", "::/8", "::10.0.0.0/104", "::8.8.8.8/128", "::/127", "::ffff:192.168.1.0/121",
 ];
 
 fn gen_cfg(rng: &mut Rng) -> (String, Vec<u8>, u32, u32, usize) {
